@@ -171,7 +171,8 @@ def generate(rs, mode, tier, index):
             "subsample": subsample, "seed": rng.integers(0, 2 ** 31),
             "max_iter": rng.integers(2, 12) if not big else rng.integers(2, 3),
             "solver": rng.choice(["SCS", "CLARABEL"], p=[0.6, 0.4]),
-            "perturb": rng.integers(1, 10 ** 6)}
+            "perturb": rng.integers(1, 10 ** 6),
+            "mask_form": rng.choice(["float", "bool", "int", "list", "tuple"], p=[4, 2, 2, 2, 1])}
     if mode == "clean" and not big and rng.coin(0.3):
         # stop on the loop's own tolerances while the scheme still makes visible progress
         plan["ftol"] = rng.choice([1e-3, 1e-2, 3e-2])
@@ -211,8 +212,20 @@ def run_decomp(plan, est, seed=None):
         if plan.get(t) is not None:
             kw[t] = float(plan[t])
     n_layers_arg = plan["n_layers"] if plan.get("layers_arg", "explicit") == "explicit" else None
+    mask = plan["mask"]
+    if mask is not None:
+        # the same 0/1 mask as a float / bool / int array or as a nested list / tuple
+        form = plan.get("mask_form", "float")
+        if form == "bool":
+            mask = np.asarray(mask) != 0
+        elif form == "int":
+            mask = np.asarray(mask).astype(np.int64)
+        elif form == "list":
+            mask = np.asarray(mask).astype(int).tolist()
+        elif form == "tuple":
+            mask = tuple(tuple(bool(v) for v in row) for row in np.asarray(mask))
     return est.fit_decomposition(
-        plan["B"], n_layers=n_layers_arg, mask=plan["mask"], lbp=plan["lbp"],
+        plan["B"], n_layers=n_layers_arg, mask=mask, lbp=plan["lbp"],
         ubp=plan["ubp"], max_iter=plan["max_iter"], seed=plan["seed"] if seed is None else seed,
         subsample=plan["subsample"], equal_l1norm_constraint=plan["equal_l1"], **kw)
 
@@ -553,6 +566,10 @@ def candidates(plan):
     if plan["pb"] != "default":
         p = dict(plan)
         p["lbp"], p["ubp"], p["pb"] = 0.0, 1.0, "default"
+        yield p
+    if plan.get("mask_form", "float") != "float":
+        p = dict(plan)
+        p["mask_form"] = "float"
         yield p
     if plan.get("ftol") is not None or plan.get("xtol") is not None:
         p = dict(plan)
